@@ -186,6 +186,24 @@ func (a encOutcome) diff(b encOutcome) string {
 	return ""
 }
 
+// idleUses draws how many further, uneventful uses (a Reset with the default
+// metadata and nothing else) lie between the first use and the one that is
+// compared with a fresh object: mostly none, sometimes a few, sometimes a
+// number around a power of 256 (where a generation counter kept in a narrow
+// integer comes round again).
+func idleUses(t *tape.Tape) int {
+	if !t.Chance(1, 3) {
+		return 0
+	}
+	switch t.Pick(12, 12, 1) {
+	case 0:
+		return 1 + t.Intn(3)
+	case 1:
+		return []int{254, 255, 256, 257, 510, 511, 512, 513}[t.Intn(8)]
+	}
+	return 65534 + t.Intn(4)
+}
+
 // encReuse: one reused Encoder against a fresh one.
 func encReuse(ctx *Ctx, t *tape.Tape, a, b []world.Op, cut int, cause abortCause, pre func(*encode.Encoder)) *report.Violation {
 	var e encode.Encoder
@@ -200,6 +218,15 @@ func encReuse(ctx *Ctx, t *tape.Tape, a, b []world.Op, cut int, cause abortCause
 			ctx.Stats.Add("cases_set_aside_because_the_code_panicked", 1)
 		}
 		return nil
+	}
+	if k := idleUses(t); k > 0 {
+		for i := 0; i < k; i++ {
+			e.Reset(ivg.DefaultViewBox, ivg.DefaultPalette)
+		}
+		notes = append(notes, fmt.Sprintf("%d further uneventful uses (Reset with the default metadata) in between", k))
+		if ctx.Stats != nil {
+			ctx.Stats.Add("cases_with_idle_uses_in_between", 1)
+		}
 	}
 	if t.Chance(1, 3) {
 		e.HighResolutionCoordinates = true // flag set right before the restart: Reset must clear it
@@ -382,6 +409,15 @@ func rendReuse(ctx *Ctx, t *tape.Tape, as [][]world.Op, cuts []int, causes []abo
 		}
 		_ = disabledAtAbort
 	}
+	if k := idleUses(t); k > 0 {
+		for i := 0; i < k; i++ {
+			r.Reset(ivg.DefaultViewBox, ivg.DefaultPalette)
+		}
+		notes = append(notes, fmt.Sprintf("%d further uneventful uses (Reset with the default metadata) in between", k))
+		if ctx.Stats != nil {
+			ctx.Stats.Add("cases_with_idle_uses_in_between", 1)
+		}
+	}
 	if rect2 != nil {
 		r.SetRasterizer(z, *rect2)
 		rect = *rect2
@@ -489,6 +525,23 @@ func vecReuse(ctx *Ctx, t *tape.Tape, a, b []world.Op, cut int, w, h int, op dra
 		w, h = w2, h2
 	}
 	img1 := image.NewRGBA(rect)
+	// the destination of the second use need not be blank: half of the time
+	// it already holds (the same, in both arms) opaque and translucent pixels,
+	// so that Src and Over differ
+	var dirt []byte
+	if t.Bool() {
+		dirt = make([]byte, len(img1.Pix))
+		x := uint32(t.Intn(1<<30)) | 1
+		for i := 0; i+3 < len(dirt); i += 4 {
+			x = x*1664525 + 1013904223
+			a := byte(x >> 24)
+			if x&0x300 == 0 {
+				a = 0xff
+			}
+			dirt[i+0], dirt[i+1], dirt[i+2], dirt[i+3] = byte(uint32(byte(x>>16))*uint32(a)/255), byte(uint32(byte(x>>8))*uint32(a)/255), byte(uint32(byte(x))*uint32(a)/255), a
+		}
+		copy(img1.Pix, dirt)
+	}
 	vz.Dst = img1
 	vz.DrawOp = op
 	tz.Hash = 0
@@ -498,6 +551,7 @@ func vecReuse(ctx *Ctx, t *tape.Tape, a, b []world.Op, cut int, w, h int, op dra
 	p1, _, m1 := guard(func() { world.Run(world.Target{Dst: &r}, b) })
 
 	img2 := image.NewRGBA(rect)
+	copy(img2.Pix, dirt)
 	vz2 := vec.NewRasterizer(img2)
 	vz2.DrawOp = op
 	tz2 := &world.TameRaster{Rasterizer: vz2, Limit: 50000}
@@ -871,19 +925,20 @@ func init() {
 					"twice_runs":                         s.Counters["twice_runs"],
 					"AB_pairs_with_every_cut_enumerated": map[string]int64{"encoder": s.Counters["enumerated_AB_pairs_encoder"], "renderer": s.Counters["enumerated_AB_pairs_renderer"]},
 					"reach_probes": map[string]int64{
-						"Encoder aborted inside an open path":                                                       s.Counters["probe_encoder_aborted_inside_open_path"],
-						"Renderer aborted inside an open path":                                                      s.Counters["probe_renderer_aborted_inside_open_path"],
-						"second use drew something":                                                                 s.Counters["probe_second_use_drew_something"],
-						"second use painted a gradient":                                                             s.Counters["probe_second_use_painted_gradient"],
-						"more than one abort/restart round":                                                         s.Counters["probe_multiple_abort_restart_rounds"],
-						"cases set aside because the code panicked in both arms (C02 reports panics)":               s.Counters["cases_set_aside_because_the_code_panicked"],
-						"Bytes asked twice inside an open path":                                                     s.Counters["probe_bytes_twice_inside_open_path"],
-						"vec second use left pixels":                                                                s.Counters["probe_vec_second_use_left_pixels"],
-						"vec runs skipped (coordinates not moderate)":                                               s.Counters["vec_skipped_untame"],
-						"vec back end panicked in the first use (skipped)":                                          s.Counters["vec_backend_panicked_in_first_use"],
-						"vec first use produced segments beyond +-50000 px (skipped)":                               s.Counters["vec_first_use_left_the_tame_range"],
-						"vec second use produced segments beyond +-50000 px (segment streams compared, pixels not)": s.Counters["vec_second_use_left_the_tame_range_(segments compared, pixels not)"],
-						"vec back end panicked in both arms (skipped)":                                              s.Counters["vec_backend_panicked_in_both_arms"],
+						"Encoder aborted inside an open path":  s.Counters["probe_encoder_aborted_inside_open_path"],
+						"Renderer aborted inside an open path": s.Counters["probe_renderer_aborted_inside_open_path"],
+						"second use drew something":            s.Counters["probe_second_use_drew_something"],
+						"second use painted a gradient":        s.Counters["probe_second_use_painted_gradient"],
+						"more than one abort/restart round":    s.Counters["probe_multiple_abort_restart_rounds"],
+						"cases with further uneventful uses between the first use and the compared one (1-3, around 256 and 512, around 65536)": s.Counters["cases_with_idle_uses_in_between"],
+						"cases set aside because the code panicked in both arms (C02 reports panics)":                                           s.Counters["cases_set_aside_because_the_code_panicked"],
+						"Bytes asked twice inside an open path":                                                                                 s.Counters["probe_bytes_twice_inside_open_path"],
+						"vec second use left pixels":                                                                                            s.Counters["probe_vec_second_use_left_pixels"],
+						"vec runs skipped (coordinates not moderate)":                                                                           s.Counters["vec_skipped_untame"],
+						"vec back end panicked in the first use (skipped)":                                                                      s.Counters["vec_backend_panicked_in_first_use"],
+						"vec first use produced segments beyond +-50000 px (skipped)":                                                           s.Counters["vec_first_use_left_the_tame_range"],
+						"vec second use produced segments beyond +-50000 px (segment streams compared, pixels not)":                             s.Counters["vec_second_use_left_the_tame_range_(segments compared, pixels not)"],
+						"vec back end panicked in both arms (skipped)":                                                                          s.Counters["vec_backend_panicked_in_both_arms"],
 					},
 					"simulated_time": "none; the unit is one Destination call, 'recovery' means the very next intact use yields exactly the fault-free result",
 					"components": map[string]string{
